@@ -301,6 +301,19 @@ def assemble(unit_dir, repo, vacuity=False, variables=None, probe_insert=None):
                 i += 1
                 f.first = len(g.lines) + 1
                 while not lines[i].strip().startswith("//@end"):
+                    if lines[i].strip().startswith("//@tls_init_expr "):
+                        # the initialiser expression of `thread_local! { static NAME: T = <expr>; }` (real text): the
+                        # committed fn around it is the anonymous initialiser function the macro generates
+                        ta = _attrs(lines[i].strip()[len("//@tls_init_expr "):])
+                        src_ = source(ta["file"])
+                        mm = re.search(r"thread_local!\s*\{(?:[^{}]|\{[^{}]*\})*?\bstatic\s+%s\s*:\s*([^=;]+?)\s*=\s*([^;]+);" % re.escape(ta["name"]), src_.src)
+                        if not mm:
+                            raise ExtractError(f"anchor lost: thread_local static {ta['name']} in {ta['file']}")
+                        g.types.append({"file": ta["file"], "item": "thread_local static " + ta["name"],
+                                        "sha": hashlib.sha256(mm.group(0).encode()).hexdigest()[:16],
+                                        "rules": [("R12", "thread_local initialiser expression -> body of a committed fn returning the declared type")]})
+                        g.lines.append("    " + mm.group(2).strip())
+                        i += 1; continue
                     g.lines.append(lines[i]); i += 1
                 f.last = len(g.lines)
                 g.fns.append(f)
@@ -324,7 +337,7 @@ def assemble(unit_dir, repo, vacuity=False, variables=None, probe_insert=None):
                             n = int(la.split()[0])
                         else:
                             lat = _attrs(la)
-                            n = ("head", lat["head"], bool(lat.get("optional")))
+                            n = ("head", lat["head"], bool(lat.get("optional")), lat.get("alt_head"))
                         blocks["loops"][n] = []; cur = blocks["loops"][n]
                     elif t.startswith("//@insert "):
                         ia = _attrs(t[len("//@insert "):]); ia["text"] = []; blocks["inserts"].append(ia); cur = ia["text"]
